@@ -17,6 +17,23 @@ type RouteObs struct {
 	Body     bool     `json:"body"`
 }
 
+// sameFieldName: does an accessor spelled by a generator (OrgId, orgId, org_id, Item_2Id ...) denote the
+// field a URL variable is named after?  Compared without case and underscores, so that every
+// spelling convention passes and only a DIFFERENT field fails.
+func sameFieldName(accessor, variable string) bool {
+	n := func(x string) string { return strings.ToLower(strings.ReplaceAll(x, "_", "")) }
+	return n(accessor) == n(variable)
+}
+
+// boundTo renders a path variable of a projection: the bare variable name when the generator pairs it
+// with the field of that name, "<variable>(bound to <accessor>)" when it reads or writes another field.
+func boundTo(variable, accessor string) string {
+	if accessor == "" || sameFieldName(accessor, variable) {
+		return variable
+	}
+	return variable + "(bound to " + accessor + ")"
+}
+
 func lowerFirst(s string) string {
 	if s == "" {
 		return s
@@ -27,7 +44,7 @@ func lowerFirst(s string) string {
 var (
 	reGoHandle   = regexp.MustCompile(`config\.mux\.Handle\("([A-Z]+) ([^"]*)", (\w+)Handler\)`)
 	reGoParamVar = regexp.MustCompile(`var (\w+)(Path|Query)Params = \[\](?:Path|Query)ParamConfig\{((?:\n\t\{[^\n]*\},)*)\n?\}`)
-	reURLParam   = regexp.MustCompile(`URLParam: "([^"]*)"`)
+	reURLParam   = regexp.MustCompile(`URLParam: "([^"]*)"(?:, FieldName: "([^"]*)")?`)
 	reQueryName  = regexp.MustCompile(`QueryName: "([^"]*)"`)
 )
 
@@ -45,7 +62,7 @@ func GoServerRoutes(httpFile string) map[string]*RouteObs {
 		}
 		if m[2] == "Path" {
 			for _, x := range reURLParam.FindAllStringSubmatch(m[3], -1) {
-				r.PathVars = append(r.PathVars, x[1])
+				r.PathVars = append(r.PathVars, boundTo(x[1], x[2]))
 			}
 		} else {
 			for _, x := range reQueryName.FindAllStringSubmatch(m[3], -1) {
@@ -57,9 +74,35 @@ func GoServerRoutes(httpFile string) map[string]*RouteObs {
 }
 
 var (
+	reGoMiddleware = regexp.MustCompile(`(?s)(\w+)Handler := BindingMiddleware\[[^\]]*\]\(\n.*?\n\t\t"([A-Z]*)", config\.errorHandler,\n\t\)`)
+	reGoBodyCond   = regexp.MustCompile(`(?s)if ((?:httpMethod == "[A-Z]+"(?: \|\| )?)+) \{\n\s*err := bindDataBasedOnContentType\(r, toBind\)`)
+	reGoBodyVerb   = regexp.MustCompile(`httpMethod == "([A-Z]+)"`)
+)
+
+// GoServerBodyBinding refines the Body projection of the Go server routes: an RPC's handler reads a request
+// body iff the verb literal its BindingMiddleware instance receives is one of the verbs the emitted
+// BindingMiddleware calls bindDataBasedOnContentType for.  When either piece cannot be read from the
+// emitted code the projection is left as derived from the registered verb.
+func GoServerBodyBinding(routes map[string]*RouteObs, httpFile, bindingFile string) {
+	cond := reGoBodyCond.FindStringSubmatch(bindingFile)
+	if cond == nil {
+		return
+	}
+	binds := map[string]bool{}
+	for _, m := range reGoBodyVerb.FindAllStringSubmatch(cond[1], -1) {
+		binds[m[1]] = true
+	}
+	for _, m := range reGoMiddleware.FindAllStringSubmatch(httpFile, -1) {
+		if r := routes[m[1]]; r != nil {
+			r.Body = binds[m[2]]
+		}
+	}
+}
+
+var (
 	reGoCliFunc  = regexp.MustCompile(`(?m)^func \(c \*(\w+)Client\) (\w+)\(ctx context\.Context, req `)
 	reGoCliPath  = regexp.MustCompile(`(?m)^\s*path := "([^"]*)"`)
-	reGoCliRepl  = regexp.MustCompile(`strings\.Replace\(path, "\{([^"]*)\}", url\.PathEscape`)
+	reGoCliRepl  = regexp.MustCompile(`strings\.Replace\(path, "\{([^"]*)\}", url\.PathEscape(?:\(fmt\.Sprint\(req\.(\w+)\)\))?`)
 	reGoCliQSet  = regexp.MustCompile(`queryParams\.Set\("([^"]*)"`)
 	reGoCliNewRq = regexp.MustCompile(`http\.NewRequestWithContext\(ctx, "([A-Z]+)", reqURL, (nil|bytes\.NewReader\(body\))\)`)
 )
@@ -83,7 +126,7 @@ func GoClientRoutes(clientFile string) map[string]*RouteObs {
 			continue // helper methods
 		}
 		for _, m := range reGoCliRepl.FindAllStringSubmatch(body, -1) {
-			r.PathVars = append(r.PathVars, m[1])
+			r.PathVars = append(r.PathVars, boundTo(m[1], m[2]))
 		}
 		for _, m := range reGoCliQSet.FindAllStringSubmatch(body, -1) {
 			r.Query = append(r.Query, m[1])
@@ -101,7 +144,7 @@ var (
 	reTsCliClass = regexp.MustCompile(`(?m)^export class (\w+)Client \{`)
 	reTsCliMeth  = regexp.MustCompile(`(?m)^  async (\w+)\(req: `)
 	reTsCliPath  = regexp.MustCompile(`let path = "([^"]*)";`)
-	reTsCliRepl  = regexp.MustCompile(`path = path\.replace\("\{([^"]*)\}", encodeURIComponent`)
+	reTsCliRepl  = regexp.MustCompile(`path = path\.replace\("\{([^"]*)\}", encodeURIComponent(?:\(String\(req\.(\w+)\)\))?`)
 	reTsCliQSet  = regexp.MustCompile(`params\.set\("([^"]*)"`)
 	reTsMethod   = regexp.MustCompile(`method: "([A-Z]+)",`)
 )
@@ -132,7 +175,7 @@ func TsClientRoutes(ts string) map[string]*RouteObs {
 				r.Path = m[1]
 			}
 			for _, m := range reTsCliRepl.FindAllStringSubmatch(body, -1) {
-				r.PathVars = append(r.PathVars, m[1])
+				r.PathVars = append(r.PathVars, boundTo(m[1], m[2]))
 			}
 			for _, m := range reTsCliQSet.FindAllStringSubmatch(body, -1) {
 				r.Query = append(r.Query, m[1])
@@ -151,6 +194,7 @@ var (
 	reTsSrvFunc  = regexp.MustCompile(`(?m)^export function create(\w+)Routes\(`)
 	reTsSrvEntry = regexp.MustCompile(`(?m)^    \{\n      method: "([A-Z]+)",\n      path: "([^"]*)",`)
 	reTsSrvPP    = regexp.MustCompile(`pathParams\["([^"]*)"\] = decodeURIComponent`)
+	reTsSrvMerge = regexp.MustCompile(`body\.(\w+) = pathParams\["([^"]*)"\]`)
 	reTsSrvQ     = regexp.MustCompile(`params\.get\("([^"]*)"\)`)
 	reTsSrvCall  = regexp.MustCompile(`await handler\.(\w+)\(ctx, body\)`)
 )
@@ -174,8 +218,12 @@ func TsServerRoutes(ts string) map[string]*RouteObs {
 			}
 			body := fbody[loc[0]:end]
 			r := &RouteObs{Verb: fbody[loc[2]:loc[3]], Path: fbody[loc[4]:loc[5]], PathVars: []string{}, Query: []string{}}
+			mergedInto := map[string]string{}
+			for _, m := range reTsSrvMerge.FindAllStringSubmatch(body, -1) {
+				mergedInto[m[2]] = m[1]
+			}
 			for _, m := range reTsSrvPP.FindAllStringSubmatch(body, -1) {
-				r.PathVars = append(r.PathVars, m[1])
+				r.PathVars = append(r.PathVars, boundTo(m[1], mergedInto[m[1]]))
 			}
 			for _, m := range reTsSrvQ.FindAllStringSubmatch(body, -1) {
 				r.Query = append(r.Query, m[1])
